@@ -115,11 +115,19 @@ package sm3
 //@ requires pad: sm3_padded(S, L)
 //@ requires out: len(out) >= 32
 //@ inst (*sm3.SM3).Write : S = S; L = L + 1
-//@ case one: sm3.nx <= 54
-//@ case edge: sm3.nx == 55
+//@ case one: sm3.nx <= 55
 //@ case two: sm3.nx > 55
 //@ after sm3.cf(sm3.x[:]) :: assert blkf: forall(j, 0, 64, sm3.x[j] == S[64 * (sm3_nblocks(L) - 1) + j])
 //@ after sm3.cf(sm3.x[:]) :: assert blkfv [from blkf]: be(sm3.x[0:64]) == sm3_blockI(S, sm3_nblocks(L) - 1)
 //@ after sm3.cf(sm3.x[:]) :: unfold last: chain_step(S, sm3_nblocks(L) - 1)
-//@ ensures digest: be(out[0:32]) == sm3_chainI(S, sm3_nblocks(L))
+//@ after sm3.cf(sm3.x[:]) :: assert hfin: hcat(sm3.h) == sm3_chainI(S, sm3_nblocks(L))
+//@ ensures w0 [from -]: be(out[0:4]) == sm3.h[0]
+//@ ensures w1 [from -]: be(out[4:8]) == sm3.h[1]
+//@ ensures w2 [from -]: be(out[8:12]) == sm3.h[2]
+//@ ensures w3 [from -]: be(out[12:16]) == sm3.h[3]
+//@ ensures w4 [from -]: be(out[16:20]) == sm3.h[4]
+//@ ensures w5 [from -]: be(out[20:24]) == sm3.h[5]
+//@ ensures w6 [from -]: be(out[24:28]) == sm3.h[6]
+//@ ensures w7 [from -]: be(out[28:32]) == sm3.h[7]
+//@ ensures digest [from w0, w1, w2, w3, w4, w5, w6, w7, hfin]: be(out[0:32]) == sm3_chainI(S, sm3_nblocks(L))
 //@ assigns *sm3, out[0:32]
